@@ -235,6 +235,12 @@ def _boundary(p, c, names, rc):
 def _edge_boundary(*ends):
     return any(a in RC[0] for e in ends if e for a in [e] + _ancestors(e))
 EV = [None]
+GATED = [{}]  # set per case: node path -> [input names of the gates that have it as a target]
+
+
+def _gated_same(c, q):
+    """c is a direct target of a gate that itself takes the input q: the diagrams deliberately draw q to the gate only."""
+    return any(q in ps for x in [c] + _ancestors(c) for ps in GATED[0].get(x, []))
 
 
 def flag(v):
@@ -347,6 +353,24 @@ def _check_state(tag, nodes_list, edges_list, tree, deps, input_consumers, sep, 
                            dep=kind, mode="sep" if sep else "merged", shape=_shape(p, c, rp, rc), inner_collapsed="collapsed_inner" in _shape(p, c, rp, rc),
                            folded=_folded(kind, p, c, deps), second_producer=_second_producer(p, v, ORDER[0]), boundary_renamed=br, consumer_expanded=cx))
         stats["deps_checked"] += 1
+    # ---- completeness for graph inputs: every consumer of an input is linked to an INPUT node that lists it
+    in_edges = {}
+    for e in edges_list:
+        # (an INPUT node owned by a collapsed container is declared hidden on purpose; its edge still says where the input goes)
+        if e["data"].get("edgeType") == "input" and e["target"] in vis:
+            lab = by_id[e["source"]].get("data", {}).get("label")
+            ps = ([lab] if isinstance(lab, str) else []) + list(by_id[e["source"]].get("data", {}).get("params", []) or [])
+            for q in ps:
+                in_edges.setdefault(q, set()).add(e["target"])
+    for q, cons in input_consumers.items():
+        for c in cons:
+            rc = reps(c)
+            if not rc:
+                continue
+            if not (in_edges.get(q, set()) & set(rc)):
+                flag(Violation("c20.missing_input_edge", f"[{tag}] input {q!r} is consumed by {c} but no INPUT node listing it is linked to any of {rc} (linked to {sorted(in_edges.get(q, []))})",
+                               mode="sep" if sep else "merged", view="interactive", gated_by_consumer_of_same_input=_gated_same(c, q), inner_collapsed="/" in rc[0] and rc[0] != c))
+            stats["deps_checked"] += 1
     # ---- soundness
     for e in drawn:
         et = e["data"].get("edgeType")
@@ -509,6 +533,39 @@ def _check_mermaid(tag, src, depth, sep, tree, deps, input_consumers, value_alia
                            shape=_shape(p, c, rp, rc), inner_collapsed="collapsed_inner" in _shape(p, c, rp, rc), folded=_folded(kind, p, c, deps), second_producer=_second_producer(p, v, ORDER[0]),
                            boundary_renamed=br, consumer_expanded=cx))
         stats["deps_checked"] += 1
+    # ---- graph inputs: every consumer of an input is linked to the input node (or input group) that lists it
+    pure = sorted(input_consumers)
+    def group_params(sid):
+        if sid.startswith("input_group_"):
+            rest = sid[len("input_group_"):]
+            def split(r):
+                if not r:
+                    return []
+                for q in pure:
+                    sq = re.sub(r"[^a-zA-Z0-9_]", "_", q)
+                    if r == sq:
+                        return [q]
+                    if r.startswith(sq + "_"):
+                        t = split(r[len(sq) + 1:])
+                        if t is not None:
+                            return [q] + t
+                return None
+            return split(rest) or []
+        return [q for q in pure if sid == "input_" + re.sub(r"[^a-zA-Z0-9_]", "_", q)]
+    in_edges = {}
+    for u, w, style in edges:
+        if u.startswith("input"):
+            for q in group_params(u):
+                in_edges.setdefault(q, set()).add(w)
+    for q, cons in input_consumers.items():
+        for c in cons:
+            rc = reps(c)
+            if not rc or _gated_same(c, q):
+                continue  # (an input that a gate takes is drawn to the gate only, not again to the gate's own targets: deliberate)
+            if not (in_edges.get(q, set()) & {_san(x) for x in rc}):
+                flag(Violation("c20.missing_input_edge", f"[{tag}] input {q!r} is consumed by {c} but no input node listing it is linked to any of {rc} (linked to {sorted(in_edges.get(q, []))})",
+                               mode="sep" if sep else "merged", view="mermaid", gated_by_consumer_of_same_input=False, inner_collapsed="/" in rc[0] and rc[0] != c))
+            stats["deps_checked"] += 1
     for u, w, style in edges:
         if u.startswith("input"):
             continue
@@ -569,6 +626,18 @@ def check_case(case, ev):
     tree, leaf_path = {}, {}
     _walk(nodes, "", tree, leaf_path)
     deps, input_consumers = _deps({**case, "nodes": nodes}, leaf_path, tree)
+    GATED[0] = {}
+    gparams = {}
+    def _gp(ns, prefix):
+        for x in ns:
+            if x["k"] == "graph":
+                _gp(x["graph"]["nodes"], prefix + x["name"] + "/")
+            elif x["k"] in ("ifelse", "route"):
+                gparams[prefix + x["name"]] = list(x["params"])
+    _gp(nodes, "")
+    for k_, p_, c_, _v in deps:
+        if k_ == "control" and c_ != "__end__":
+            GATED[0].setdefault(c_, []).append(gparams.get(p_, []))
     # a renamed boundary shows a value under several names along its way: all of them label the same dependency
     value_alias = _aliases(nodes)
     if case["renamed"]:
